@@ -51,7 +51,7 @@ def outcomeText (s : St) (dropped : Bool) : String :=
   let ev := if s.chans.isEmpty then "-" else ".".intercalate (s.chans.map (fun c => toString c.events))
   let calls :=
     if dropped then "-" else
-    let main := String.ofList [callChar (call s .sendData), callChar (call s .createOffer), callChar (call s .waitForConnected)]
+    let main := String.ofList [callChar (call s .sendData), callChar (call s .createOffer), callChar (call s .waitForConnected), callChar (call s .pcRecv)]
     let recv := if s.chans.isEmpty then "-" else String.ofList (s.chans.map (fun c => if c.senderDropped then 'o' else 'p'))
     s!"{main}/{recv}/h{b01 s.held}/b{s.blocked}"
   s!"{peerText s.peer},{sigText s.sig},{reasonText s.reason},{ev},{calls}"
@@ -93,6 +93,13 @@ def eventActs : String → Option (List (List Act))
   | "peerShutdown" => some [[.peerShutdown]]
   | "peerShutdownAck" => some [[.peerShutdownAck]]
   | "iceStop" => some [[.iceStop]]
+  -- ICE `Failed`: forced on the subject's ICE transport, or written by its consent keepalive after the peer
+  -- went silent (the harness' silencing can leak a close_notify, see `peerVanish`)
+  | "iceFail" => some [[.iceFail]]
+  | "peerVanishIceFail" => some [[.iceFail], [.peerCloseNotify]]
+  -- the peer's certificate does not match the announced fingerprint: nothing happens now, the handshake
+  -- (racing progress) ends in failure instead of `Connected`
+  | "badFingerprint" => some [[]]
   -- the harness emulates a vanishing peer by stopping the peer's ICE transport; `stop()` publishes Closed
   -- *before* it clears the sockets, so the peer's own teardown can still get a close_notify onto the wire
   | "peerVanish" => some [[.iceDisconnect], [.peerCloseNotify]]
@@ -126,8 +133,8 @@ partial def explore (dropped : Bool) (todo : List (St × List Act)) (seen : List
         | some a => (step s a, removeNth pend i)
         | none => (s, pend))
       -- optional progress actions may also simply never happen
-      let optional := pend.all (fun a => a == .iceConnect || a == .dtlsConnect || a == .roleSet || a == .descsSet)
-      let acc := if ints.isEmpty && optional && !(s.dtls == .handshaking && !s.dtlsExited) then
+      let optional := pend.all (fun a => a == .iceConnect || a == .dtlsConnect || a == .dtlsFail || a == .roleSet || a == .descsSet)
+      let acc := if ints.isEmpty && optional then
           let t := outcomeText s dropped
           if acc.contains t then acc else t :: acc
         else acc
@@ -152,12 +159,17 @@ def life (args : List String) : String :=
         match evs.mapM eventActs with
         | none => "bad-event"
         | some alts =>
-          let prog : List Act := if progress = "1" then [.iceConnect, .dtlsConnect, .roleSet, .descsSet] else []
+          let badFp := evs.contains "badFingerprint"
+          -- … the (tampered) answer is applied as part of this scenario: signaling is back to stable
+          let s0 := if badFp then { s0 with sig := .stable } else s0
+          let prog : List Act := if progress = "1" then [.iceConnect, if badFp then .dtlsFail else .dtlsConnect, .roleSet, .descsSet] else []
           let dropped := evs.contains "drop"
           let outs := (alternatives alts).flatMap (fun ext => explore dropped [(s0, ext ++ prog)] [] [])
           let outs := outs.eraseDups
           -- the property on the model itself: every quiescent outcome of a terminating event is terminal
-          let terminating := !(evs.contains "closeChannelTwice")
+          -- `badFingerprint` terminates only if the network lets the handshake get that far (progress is the
+          -- environment's): the implementation side is judged by the oracles
+          let terminating := !(evs.contains "closeChannelTwice") && !badFp
           let bad := if terminating then outs.filter (fun o => !outcomeTerminal o) else []
           let obs := observed.splitOn ";"
           if !bad.isEmpty then "model-nonterminal:" ++ "|".intercalate bad
